@@ -362,11 +362,32 @@ func c16(ctx *Ctx) (*Outcome, error) {
 			}
 		}
 	}
+	crossChecked, crossSigs, crossProbs := c16CrossFile(ctx)
+	pairsChecked += crossChecked
+	byKind["schema-root-type (cross-file, x package/output mapping)"] = crossChecked
+	for k := range crossSigs {
+		sigs[k] = true
+	}
+	for _, cp := range crossProbs {
+		key := "cross|" + classifyDiag(cp.problem)
+		if vseen[key] || len(viols) >= 12 {
+			_ = os.RemoveAll(cp.dir)
+			continue
+		}
+		vseen[key] = true
+		rp := filepath.Join(evid.ReplayDir(), fmt.Sprintf("C16-%d", len(viols)))
+		_ = os.RemoveAll(rp)
+		_ = osexec("cp", "-r", cp.dir, rp)
+		_ = os.RemoveAll(cp.dir)
+		b, _ := json.MarshalIndent(map[string]any{"property": "C16", "kind": cp.sig, "options_a": cp.a, "options_b": cp.b, "problem": cp.problem}, "", " ")
+		_ = os.WriteFile(filepath.Join(rp, "verif-summary.json"), b, 0o644)
+		viols = append(viols, Viol{Replay: rp, Summary: fmt.Sprintf("[%s] %s\n a=%v\n b=%v", cp.sig, trunc(cp.problem, 600), cp.a, cp.b)})
+	}
 	o := &Outcome{Level: "exploration", Violations: viols}
 	o.Coverage = map[string]any{
 		"evaluations":           pairsChecked,
 		"distinct_nontrivial":   len(sigs),
-		"rule":                  "random schemas over the full feature space x a random base option set x its six one-option neighbours (+-only-models, --tags A vs B, +-capitalization, +-struct-name-from-title, +-schema-root-type, +-extra-imports); the two real CLI outputs are compared at go/ast level: only-models => identical type declarations (printed with comments), no func, no var, and the file still type-checks (no stray import); tags => identical after erasing tags, every tag = requested keys in order with one common value, values unchanged; naming options => identical multiset of declarations after masking package-local identifiers and interpreted strings (struct tags kept); extra-imports => with-flag declarations minus *YAML methods and the yaml import equal the without-flag declarations; distinct_nontrivial = distinct (option kind, schema signature) pairs",
+		"rule":                  "random schemas over the full feature space x a random base option set x its six one-option neighbours (+-only-models, --tags A vs B, +-capitalization, +-struct-name-from-title, +-schema-root-type, +-extra-imports) plus a cross-file stratum (order -> customer file and definition, JSON/YAML; --schema-root-type for the referenced or the referring schema next to every combination of --schema-package / --schema-output for the referenced id: same set of files, same declarations up to the renamed type); the two real CLI outputs are compared at go/ast level: only-models => identical type declarations (printed with comments), no func, no var, and the file still type-checks (no stray import); tags => identical after erasing tags, every tag = requested keys in order with one common value, values unchanged; naming options => identical multiset of declarations after masking package-local identifiers and interpreted strings (struct tags kept); extra-imports => with-flag declarations minus *YAML methods and the yaml import equal the without-flag declarations; distinct_nontrivial = distinct (option kind, schema signature) pairs",
 		"samples":               samples,
 		"pairs_by_option":       byKind,
 		"pairs_skipped_refused": skipped,
@@ -491,4 +512,127 @@ func firstDiff(a, b string) string {
 		}
 	}
 	return "(no line differs)"
+}
+
+// c16CrossFile: --schema-root-type for a schema that is reached through a cross-file reference, next to every
+// combination of --schema-package / --schema-output for the same id. Adding the root-type mapping may rename the
+// root type (and what refers to it) and nothing else: the same set of files, the same declarations.
+type crossProblem struct {
+	sig, problem string
+	a, b         []string
+	dir          string
+}
+
+func c16CrossFile(ctx *Ctx) (checked int, sigs map[string]bool, probs []crossProblem) {
+	sigs = map[string]bool{}
+	const custID, orderID = "https://example.com/customer", "https://example.com/order"
+	mod := c20ModFiles(ctx.Env)
+	n := ctx.N(48, 192)
+	type res struct {
+		p   *crossProblem
+		sig string
+		ok  bool
+	}
+	results := make([]res, n)
+	stage.Parallel(n, func(i int) {
+		r := sg.NewRng(ctx.Seed, fmt.Sprintf("C16-cross-%d", i))
+		g := sg.NewGen(r, sg.Opts{MaxDepth: 2, NoFormats: true, NoRefs: true})
+		cust := g.Object(1, true)
+		cust.ID = custID
+		addr := g.Object(2, false)
+		cust.Defs = append(cust.Defs, sg.Prop{Name: "Address", S: addr})
+		yaml := i%5 == 4
+		ext := ".json"
+		if yaml {
+			ext = ".yaml"
+		}
+		order := &sg.Schema{ID: orderID, Types: []string{"object"}, Props: []sg.Prop{
+			{Name: "customer", S: &sg.Schema{Ref: "customer" + ext, Target: cust}},
+			{Name: "n", S: g.Integer()},
+		}}
+		if i%2 == 0 {
+			order.Props = append(order.Props, sg.Prop{Name: "shipTo", S: &sg.Schema{Ref: "customer" + ext + "#/$defs/Address", Target: addr}})
+		}
+		var base []string
+		mapping := i % 4 // which of package/output the referenced schema is mapped with
+		if mapping&1 != 0 {
+			base = append(base, "--schema-package", custID+"="+c20Mod+"/cust")
+		}
+		if mapping&2 != 0 {
+			base = append(base, "--schema-output", custID+"=cust/customer.go")
+		}
+		if (i/4)%3 == 1 {
+			base = append(base, "--only-models")
+		} else if (i/4)%3 == 2 {
+			base = append(base, "--extra-imports")
+		}
+		which, oldName := custID, "Customer"+strings.ToUpper(ext[1:2])+ext[2:]
+		if (i/12)%2 == 1 {
+			which, oldName = orderID, "Order"+strings.ToUpper(ext[1:2])+ext[2:]
+		}
+		with := append(append([]string{}, base...), "--schema-root-type", which+"=Renamed")
+		files := append([]batch.File{}, mod...)
+		data := func(s *sg.Schema) []byte {
+			if yaml {
+				return sg.ToYAML(s.ToJSON(), sg.YAMLBlock)
+			}
+			return jsonx.MarshalIndent(s.ToJSON())
+		}
+		files = append(files, batch.File{Path: "schemas/customer" + ext, Data: data(cust)}, batch.File{Path: "schemas/order" + ext, Data: data(order)})
+		run := func(opts []string) *cli.Result {
+			args := append([]string{"-p", c20Mod + "/defpkg", "-o", "defpkg/default.go"}, opts...)
+			return cli.Run(ctx.Env, &cli.Inv{Files: files, Args: append(args, "schemas/order"+ext)})
+		}
+		ra, rb := run(base), run(with)
+		defer ra.Cleanup()
+		sig := fmt.Sprintf("cross mapping=%d mode=%d which=%s yaml=%v", mapping, (i/4)%3, oldName, yaml)
+		results[i].sig = sig
+		fail := func(msg string) {
+			results[i].p = &crossProblem{sig: sig, problem: msg, a: base, b: with, dir: rb.Dir}
+		}
+		if ra.Proc.Exit != 0 || rb.Proc.Exit != 0 {
+			if (ra.Proc.Exit == 0) != (rb.Proc.Exit == 0) {
+				fail(fmt.Sprintf("the option changes whether generation succeeds: without: exit %d %s | with: exit %d %s", ra.Proc.Exit, ra.Failed(), rb.Proc.Exit, rb.Failed()))
+				return
+			}
+			rb.Cleanup()
+			return
+		}
+		results[i].ok = true
+		oa, ob := ra.Outputs(), rb.Outputs()
+		if strings.Join(keysOf(oa), ",") != strings.Join(keysOf(ob), ",") {
+			fail(fmt.Sprintf("--schema-root-type changes the set of emitted files: without %v, with %v", keysOf(oa), keysOf(ob)))
+			return
+		}
+		re := regexp.MustCompile(`\bRenamed`)
+		for name, a := range oa {
+			if !strings.HasSuffix(name, ".go") {
+				continue
+			}
+			b := re.ReplaceAll(ob[name], []byte(oldName))
+			ma, errA := maskedDecls(a)
+			mb, errB := maskedDecls(b)
+			if errA != nil || errB != nil {
+				fail(fmt.Sprintf("%s does not parse: %v %v", name, errA, errB))
+				return
+			}
+			sort.Strings(ma)
+			sort.Strings(mb)
+			if strings.Join(ma, "\n") != strings.Join(mb, "\n") {
+				fail(name + ": outputs differ in more than identifiers: " + firstDiff(strings.Join(ma, "\n"), strings.Join(mb, "\n")))
+				return
+			}
+		}
+		rb.Cleanup()
+	})
+	for _, r := range results {
+		if r.ok {
+			checked++
+			sigs[r.sig] = true
+		}
+		if r.p != nil {
+			probs = append(probs, *r.p)
+		}
+	}
+	return
 }
